@@ -577,6 +577,21 @@ func (r *runner) parseRaceLogs() {
 	}
 }
 
+// printable keeps the report lines free of control characters.
+func printable(s string) string {
+	var sb strings.Builder
+	for _, r := range s {
+		if r == '\n' || r == '\t' {
+			sb.WriteRune(' ')
+		} else if r < 0x20 || r == 0x7f || r == 0xfffd {
+			sb.WriteString(fmt.Sprintf("\\x%02x", r))
+		} else {
+			sb.WriteRune(r)
+		}
+	}
+	return sb.String()
+}
+
 func shortFn(s string) string {
 	s = strings.TrimPrefix(s, "github.com/hneemann/")
 	s = regexp.MustCompile(`\.func\d+(\.\d+)*`).ReplaceAllString(s, ".func")
@@ -783,7 +798,7 @@ func main() {
 		}, "", " ")
 		os.WriteFile(rp, rb, 0o644)
 		fmt.Printf("VIOLATION property=%s replay=%s\n", *prop, rp)
-		fmt.Printf("  sig=%s case=%d config=%s x%d: %s\n", v.Sig, v.Case, v.Config, v.Count, head([]byte(v.Msg), 600))
+		fmt.Printf("  sig=%s case=%d config=%s x%d: %s\n", v.Sig, v.Case, v.Config, v.Count, printable(head([]byte(v.Msg), 600)))
 	}
 
 	distinct := int64(len(a.keys)) + a.cnt["nontrivial_by_construction"]
